@@ -142,9 +142,204 @@ theorem adjust_inverted_witness :
       fromPriceOk ⟨⟨1001, 2⟩, ⟨1000, 2⟩⟩ = false := by
   decide
 
+/-! ### end to end: adjust ∘ validate ∘ price map (one token of `set_prices_from_remaining_accounts`) -/
+
+/-- why an adjustment that was needed did not happen: a checked step or a `u32` conversion failed. -/
+def AdjFail (p : Price) (r dev : Nat) : Prop :=
+  (absDiff p.max.unit r > dev ∧ (2 ^ 128 ≤ r + dev ∨ p.max.withUnit (r + dev) false = none)) ∨
+  (absDiff p.min.unit r > dev ∧ (r < dev ∨ p.min.withUnit (r - dev) true = none))
+
+/-- "no adjustment" means: already in band, or one of the enumerated failures. -/
+theorem adjust_none_cases {U f : Nat} {p : Price} {ref : Option Dec} {r dev : Nat}
+    (h1 : refUnit p ref = some r) (h2 : applyFactor 128 U r f = some dev)
+    (h : adjust U f p ref = none) :
+    (absDiff p.max.unit r ≤ dev ∧ absDiff p.min.unit r ≤ dev) ∨ AdjFail p r dev := by
+  unfold adjust at h
+  simp only [h1, h2] at h
+  by_cases hmax : absDiff p.max.unit r > dev
+  · simp only [hmax, if_true] at h
+    unfold checkedAdd toU at h
+    by_cases hfit : r + dev < 2 ^ 128
+    · simp only [hfit, if_true] at h
+      cases hw : p.max.withUnit (r + dev) false with
+      | none => exact Or.inr (Or.inl ⟨hmax, Or.inr hw⟩)
+      | some mx =>
+        simp only [hw] at h
+        by_cases hmin : absDiff p.min.unit r > dev
+        · simp only [hmin, if_true] at h
+          unfold checkedSub at h
+          by_cases hle : dev ≤ r
+          · simp only [hle, if_true] at h
+            cases hw2 : p.min.withUnit (r - dev) true with
+            | none => exact Or.inr (Or.inr ⟨hmin, Or.inr hw2⟩)
+            | some mn => simp [hw2] at h
+          · exact Or.inr (Or.inr ⟨hmin, Or.inl (by omega)⟩)
+        · simp [hmin] at h
+    · exact Or.inr (Or.inl ⟨hmax, Or.inl (by omega)⟩)
+  · simp only [hmax, if_false] at h
+    by_cases hmin : absDiff p.min.unit r > dev
+    · simp only [hmin, if_true] at h
+      unfold checkedSub at h
+      by_cases hle : dev ≤ r
+      · simp only [hle, if_true] at h
+        cases hw2 : p.min.withUnit (r - dev) true with
+        | none => exact Or.inr (Or.inr ⟨hmin, Or.inr hw2⟩)
+        | some mn => simp [hw2] at h
+      · exact Or.inr (Or.inr ⟨hmin, Or.inl (by omega)⟩)
+    · exact Or.inl ⟨by omega, by omega⟩
+
+/-- the price that reaches the validator and the price map when adjustment is enabled. -/
+def adjusted (U f : Nat) (p : Price) (ref : Option Dec) : Price := (adjust U f p ref).getD p
+
+/-- one token accepted end to end: the (possibly adjusted) price passes the validator's deviation
+clause (`validate_one` with the same factor; timestamps are a separate clause) and the price map. -/
+def Accepted (U f : Nat) (p : Price) (ref : Option Dec) : Prop :=
+  (∃ b, checkDeviation U f (adjusted U f p ref) ref = .ok b) ∧ fromPriceOk (adjusted U f p ref) = true
+
+/-- END TO END: with adjustment enabled, an accepted price is well formed and lies within the
+reference ± the maximum deviation — exactly when the adjuster rewrote it, and up to less than one
+precision step (the validator's rounding, F-C24b) when it was left alone; with a zero floored
+deviation it is in band unless the adjustment itself failed (`AdjFail`). `r`, `dev` are those of
+the feed price as delivered. -/
+theorem e2e_accepted_in_band {U f : Nat} {p : Price} {ref : Option Dec} (h : Accepted U f p ref) :
+    ∃ r dev, refUnit p ref = some r ∧ applyFactor 128 U r f = some dev ∧
+      0 < (adjusted U f p ref).min.unit ∧
+      (adjusted U f p ref).min.unit ≤ (adjusted U f p ref).max.unit ∧
+      ((∃ p', adjust U f p ref = some p' ∧ r ≤ p'.min.unit + dev ∧ p'.max.unit ≤ r + dev) ∨
+       (adjust U f p ref = none ∧
+         (0 < dev → absDiff p.max.unit r < dev + 10 ^ p.max.mult ∧
+                    absDiff p.min.unit r < dev + 10 ^ p.max.mult) ∧
+         (dev = 0 → (absDiff p.max.unit r = 0 ∧ absDiff p.min.unit r = 0) ∨ AdjFail p r 0))) := by
+  obtain ⟨⟨b, hc⟩, hok⟩ := h
+  cases ha : adjust U f p ref with
+  | some p' =>
+    have e : adjusted U f p ref = p' := by simp [adjusted, ha]
+    rw [e] at hok
+    obtain ⟨r, dev, h1, h2, h3, h4, h5, h6⟩ := accepted_after_adjust ha hok
+    rw [e]
+    exact ⟨r, dev, h1, h2, h3, h5, Or.inl ⟨p', rfl, h4, h6⟩⟩
+  | none =>
+    have e : adjusted U f p ref = p := by simp [adjusted, ha]
+    rw [e] at hok hc
+    rw [e]
+    obtain ⟨m, v0, vle⟩ := (fromPriceOk_iff p).1 hok
+    have hpos : 0 < p.min.unit := by
+      simp only [Dec.unit]; exact Nat.mul_pos (Nat.pos_of_ne_zero v0) (pow10_pos _)
+    have hle : p.min.unit ≤ p.max.unit := by
+      simp only [Dec.unit, m]; exact Nat.mul_le_mul_right _ vle
+    unfold checkDeviation at hc
+    cases hr : refUnit p ref with
+    | none => simp [hr] at hc
+    | some r =>
+      cases hd : applyFactor 128 U r f with
+      | none => simp [hr, hd] at hc
+      | some dev =>
+        refine ⟨r, dev, rfl, hd, hpos, hle, Or.inr ⟨rfl, ?_, ?_⟩⟩
+        · intro hdp
+          simp only [hr, hd, hdp, gt_iff_lt, if_true] at hc
+          cases hw : p.max.withUnit dev true with
+          | none => simp [hw] at hc
+          | some d =>
+            obtain ⟨_, w2, w3, _⟩ := withUnit_ceil hw
+            simp only [hw] at hc
+            by_cases c1 : d.unit < absDiff p.max.unit r
+            · simp [c1] at hc
+            · by_cases c2 : d.unit < absDiff p.min.unit r
+              · simp [c1, c2] at hc
+              · constructor <;> omega
+        · intro hz
+          subst hz
+          rcases adjust_none_cases hr hd ha with ⟨a, b⟩ | hf
+          · exact Or.inl ⟨by omega, by omega⟩
+          · exact Or.inr hf
+
+/-- in the configurable domain (`factor = ratio·10^12 ≥ 10^12`, `U = 10^20`) a zero floored
+deviation means a reference below `10^8`, for which no step of the adjustment can fail: an accepted
+price then EQUALS the reference (both bounds), i.e. a feed price that differs from its reference
+is clamped or rejected, never passed through. -/
+theorem e2e_dev_zero_equals_reference {f : Nat} {p : Price} {ref : Option Dec} {r : Nat}
+    (hf : 10 ^ 12 ≤ f) (hr : refUnit p ref = some r) (hd : applyFactor 128 (10 ^ 20) r f = some 0)
+    (h : Accepted (10 ^ 20) f p ref) :
+    (adjusted (10 ^ 20) f p ref).min.unit = r ∧ (adjusted (10 ^ 20) f p ref).max.unit = r := by
+  -- r < 10^8
+  have hsmall : r < 10 ^ 8 := by
+    unfold applyFactor mulDiv toU at hd
+    simp only [show (10:Nat) ^ 20 ≠ 0 by decide, if_false] at hd
+    split at hd
+    · injection hd with hd
+      have h0 : r * f < 10 ^ 20 := by
+        rcases Nat.lt_or_ge (r * f) (10 ^ 20) with h | h
+        · exact h
+        · have := Nat.div_pos h (by decide : 0 < 10 ^ 20); omega
+      rcases Nat.lt_or_ge r (10 ^ 8) with h | h
+      · exact h
+      · have : 10 ^ 8 * 10 ^ 12 ≤ r * f := Nat.mul_le_mul h hf
+        have e : (10:Nat) ^ 8 * 10 ^ 12 = 10 ^ 20 := by decide
+        omega
+    · cases hd
+  obtain ⟨r', dev', h1, h2, hpos, hle, hcase⟩ := e2e_accepted_in_band h
+  rw [hr] at h1; cases h1
+  rw [hd] at h2; cases h2
+  rcases hcase with ⟨p', ha, l, u⟩ | ⟨ha, _, hz⟩
+  · have e : adjusted (10 ^ 20) f p ref = p' := by simp [adjusted, ha]
+    rw [e] at hle ⊢
+    omega
+  · have e : adjusted (10 ^ 20) f p ref = p := by simp [adjusted, ha]
+    rw [e]
+    rcases hz rfl with ⟨a, b⟩ | hfail
+    · have := (absDiff_le_iff p.max.unit r 0).1 (by omega)
+      have := (absDiff_le_iff p.min.unit r 0).1 (by omega)
+      omega
+    · -- no failure is possible for r < 10^8
+      exfalso
+      have hq : ∀ (d : Dec) (up : Bool), d.withUnit r up ≠ none := by
+        intro d up hn
+        unfold Dec.withUnit at hn
+        have hp := pow10_pos d.mult
+        have hb : (if up = true then ceilDiv r (10 ^ d.mult) else r / 10 ^ d.mult) < 2 ^ 32 := by
+          have h1 : r / 10 ^ d.mult ≤ r := Nat.div_le_self _ _
+          have h2 : ceilDiv r (10 ^ d.mult) ≤ r := by
+            unfold ceilDiv
+            rcases Nat.eq_zero_or_pos r with h0 | h0
+            · subst h0; simp; omega
+            · apply Nat.div_le_of_le_mul
+              have : r + 10 ^ d.mult - 1 ≤ r * 10 ^ d.mult := by
+                have := Nat.mul_le_mul h0 hp
+                calc r + 10 ^ d.mult - 1 ≤ r + 10 ^ d.mult - 1 := Nat.le_refl _
+                  _ ≤ r * 10 ^ d.mult := by
+                    have e1 : r * 10 ^ d.mult = (r - 1) * 10 ^ d.mult + 10 ^ d.mult := by
+                      rw [← Nat.add_one_mul]; congr 1; omega
+                    have e2 : r - 1 ≤ (r - 1) * 10 ^ d.mult := Nat.le_mul_of_pos_right _ hp
+                    omega
+              rw [Nat.mul_comm]; exact this
+          have : (2:Nat) ^ 32 > 10 ^ 8 := by decide
+          split <;> omega
+        simp [hb] at hn
+      rcases hfail with ⟨_, h | h⟩ | ⟨_, h | h⟩
+      · have : (2:Nat) ^ 128 > 10 ^ 8 := by decide
+        omega
+      · exact hq p.max false (by simpa using h)
+      · omega
+      · exact hq p.min true (by simpa using h)
+
+/-- WITNESS (model only, outside the configurable domain): with a factor BELOW the minimum a feed
+config can hold (`10^9 < 10^12`) the floored deviation is 0 for a large reference, the clamp fails
+on the `u32` conversion (`with_unit_price` returns `None`), and the validator skips — the feed
+price 45/60 is accepted against reference 5·10^10. `FeedConfig::with_max_deviation_factor` rejects
+such factors (`MaxDeviationFactorTooSmall`), so this is why `e2e_dev_zero_equals_reference`
+needs `10^12 ≤ f`. -/
+theorem e2e_below_min_factor_witness :
+    adjust (10 ^ 20) (10 ^ 9) ⟨⟨45, 0⟩, ⟨60, 0⟩⟩ (some ⟨5, 10⟩) = none ∧
+    checkDeviation (10 ^ 20) (10 ^ 9) ⟨⟨45, 0⟩, ⟨60, 0⟩⟩ (some ⟨5, 10⟩) = .ok false ∧
+    fromPriceOk ⟨⟨45, 0⟩, ⟨60, 0⟩⟩ = true := by
+  refine ⟨by decide, by rfl, by decide⟩
+
 /-! ### Non-vacuity -/
 example : adjust (10 ^ 20) (10 ^ 18) ⟨⟨900, 2⟩, ⟨1200, 2⟩⟩ (some ⟨1000, 2⟩) = some ⟨⟨990, 2⟩, ⟨1010, 2⟩⟩ := by decide
 example : fromPriceOk ⟨⟨990, 2⟩, ⟨1010, 2⟩⟩ = true := by decide
 example : adjust (10 ^ 20) (10 ^ 18) ⟨⟨995, 2⟩, ⟨1005, 2⟩⟩ (some ⟨1000, 2⟩) = none := by decide
+
+example : adjusted (10 ^ 20) (10 ^ 12) ⟨⟨45, 0⟩, ⟨60, 0⟩⟩ (some ⟨50, 0⟩) = ⟨⟨50, 0⟩, ⟨50, 0⟩⟩ := by decide
+example : checkDeviation (10 ^ 20) (10 ^ 12) ⟨⟨50, 0⟩, ⟨50, 0⟩⟩ (some ⟨50, 0⟩) = .ok false := by rfl
 
 end Gmx.C29
